@@ -325,7 +325,7 @@ theorem PC_kmset (R : ViewRel) (s : PState) (Q : QFs) (hI : Inv R s (fvOf Q)) (h
     (hk : s.kins ≠ [])
     (hstage : ∀ o ∈ s.kout, o.stage = 3 ∧ aget o.id s.tset = none)
     (happ : applyMSet s.tset (kmsetChanges s) = some t')
-    (hmd : s.mdirty = false) (hkdir : s.kdir = true) (hpend : s.pendU = []) :
+    (hmd : s.mdirty = false) (hkdir : s.kdir = true) (hpend : ∀ x ∈ s.pendU, x.2 ∉ s.kins) :
     PCore R { s with tset := t', tcont := s.kout.map (fun o => (o.id, o.ents)) ++ s.tcont,
                      kdelq := s.kins, kins := [], kout := [], mdirty := true }
       (qupd Q .manifest ((Q .manifest).setV ((Q .manifest).fv.map (appendChunk (.mset (kmsetChanges s)))))) := by
@@ -384,7 +384,16 @@ theorem PC_kmset (R : ViewRel) (s : PState) (Q : QFs) (hI : Inv R s (fvOf Q)) (h
       immP := hm.immP
       curP := hm.curP
       deadP := hm.deadP
-      pend := by intro x hx; rw [hpend] at hx; cases hx }
+      pend := by
+        intro x hx
+        obtain ⟨a, b, c, d⟩ := hm.pend x hx
+        refine ⟨a, b, c, fun e he => ?_⟩
+        obtain ⟨d1, d2, d3⟩ := d e he
+        refine ⟨?_, d2, by rw [hcontOld x.2 d1]; exact d3⟩
+        cases hg : aget x.2 s.tset with
+        | none => rw [hg] at d1; cases d1
+        | some lvl =>
+          exact aget_isSome_of_mem (x.2, lvl) t' ((hmem' _).mpr (Or.inr ⟨aget_mem _ _ _ hg, hpend x hx⟩)) }
   · have hl := hP.logic
     show PLogic R s.commits s.done s.curT (s.kout.map (fun o => (o.id, o.ents)) ++ s.tcont) t' s.tsetD s.mtxns s.imm
     refine ⟨hl.curLe, hl.link, ?_, ?_⟩
